@@ -426,12 +426,14 @@ class Ctx:
                 return 'known'
         h = hashlib.sha1((sig + json.dumps(detail, sort_keys=True, default=str)).encode()).hexdigest()[:10]
         path = os.path.join(REPLAYS, '%s_%s.json' % (self.prop, h))
+        self.nviol = getattr(self, 'nviol', 0) + 1
+        if self.nviol > 60:                 # at most 60 replay files per run (20 VIOLATION lines): disk is limited
+            return 'new'
         with open(path, 'w') as f:
             json.dump({'property': self.prop, 'sig': sig, 'found_input': found_input, 'seed': self.seed,
                        'tier': self.tier, 'detail': detail}, f, indent=1, default=str)
         if len(self.violations) < 20 and path not in [v[1] for v in self.violations]:
             self.violations.append((sig, path, found_input))
-        self.nviol = getattr(self, 'nviol', 0) + 1
         return 'new'
 
     def unproved(self, what, detail):
